@@ -1,6 +1,19 @@
 (* C34 — editor-support positions identify references and objects exactly. *)
 From Coq Require Import Sorting.Sorted Sorting.Permutation.
-From TxV Require Import Core.Base Model.EdPos Proofs.EdPosProofs.
+From TxV Require Import Core.Base Model.EdPosDefs Gen.SrcEdPos Model.EdPos Proofs.EdPosProofs.
+
+(* The facts tools/translate/edpos_tr.py reads off the current textx/model.py (Gen/SrcEdPos.v):
+   RefRulePosition takes the span of the reference node and the span of the resolved object,
+   resolve_one_step sorts the list by ref_pos_start after its loop, process_node registers
+   with setdefault after the children, the map is sorted by (-start, end).  The model is
+   defined FROM these constants, so every theorem below is re-proved against them. *)
+Theorem C34_source_facts :
+  src_ref_pos_start = RefStart /\ src_ref_pos_end = RefEnd /\
+  src_def_pos_start = TgtStart /\ src_def_pos_end = TgtEnd /\
+  src_list_sorted = true /\ src_list_key = KRefStart /\
+  src_dict_register = KeepFirst /\ src_dict_order = (Desc, Asc).
+Proof. exact source_facts. Qed.
+Print Assumptions C34_source_facts.
 
 (* For EVERY scope provider (any function of the reference and of the history of provider
    calls: every postponement schedule), every number of models and every list of references
@@ -25,7 +38,7 @@ Theorem C34_entry_exact : forall x t,
   let e := mk_entry (x, t) in
   e_start e = cstart x /\ e_end e = cend x /\ e_name e = cname x /\
   e_file e = tfile t /\ e_dstart e = tstart t /\ e_dend e = tend t.
-Proof. intros x t. cbn. repeat split. Qed.
+Proof. intros x t. repeat split; reflexivity. Qed.
 Print Assumptions C34_entry_exact.
 
 (* When the reference texts of each model are at increasing positions (what the parser
